@@ -142,17 +142,135 @@ layout_variant!(lay_pair_u8, "K=(u32,u32),V=u8", (u32, u32), u8, |i| (i, i), |i|
 layout_variant!(lay_u64_arr3, "K=u64,V=[u8;3]", u64, [u8; 3], |i| i as u64, |i| [i as u8; 3]);
 layout_variant!(lay_u128_vecstring, "K=u128,V=Vec<String>", u128, Vec<String>, |i| i as u128, |_| vec![String::new()]);
 
+
+// ---- zero-sized values with drop glue and a size that depends on state outside the value (a permit, a handle into an
+// arena): code may branch on `size_of::<V>() == 0`; drop counts stand in for identities, a small model for the accounting.
+thread_local! { static TOK_HEAP: std::cell::Cell<usize> = std::cell::Cell::new(0); static TOK_MADE: std::cell::Cell<u64> = std::cell::Cell::new(0); static TOK_DROPPED: std::cell::Cell<u64> = std::cell::Cell::new(0); }
+#[derive(Debug)]
+pub struct Tok;
+impl Tok { fn new() -> Tok { TOK_MADE.with(|c| c.set(c.get() + 1)); Tok } }
+impl Drop for Tok { fn drop(&mut self) { TOK_DROPPED.with(|c| c.set(c.get() + 1)); } }
+impl lru_mem::HeapSize for Tok { fn heap_size(&self) -> usize { TOK_HEAP.with(|c| c.get()) } }
+fn tok_live() -> i64 { TOK_MADE.with(|c| c.get()) as i64 - TOK_DROPPED.with(|c| c.get()) as i64 }
+
+pub fn run_zst_tokens<K: Eq + std::hash::Hash + lru_mem::MemSize + std::fmt::Debug>(label: &'static str, mk_k: fn(u32) -> K, kid: fn(&K) -> u32, universe: u32, rng: &mut Rng, out: &mut RunOut) {
+    let heaps = [0usize, 8, 24, 100];
+    let measure = |id: u32| { let t = Tok::new(); lru_mem::entry_size(&mk_k(id), &t) };
+    TOK_HEAP.with(|c| c.set(0));
+    let e0 = measure(0);
+    let max = match rng.below(4) { 0 => usize::MAX, 1 => e0 + 24, _ => e0 * rng.range(1, 5) + rng.usize_below(120) };
+    let hk = TH_KINDS[rng.usize_below(TH_KINDS.len())];
+    let base = tok_live();
+    let mut c: LruCache<K, Tok, TH> = LruCache::with_hasher(max, TH(hk, next_hasher_seed()));
+    let mut model: Vec<(u32, usize)> = Vec::new();
+    let mut log: Vec<String> = vec![format!("{} max={} hk={}", label, max, hk)];
+    let mut bad = |prop: &'static str, sig: &str, msg: String, log: &[String], out: &mut RunOut| {
+        *out.viol_counts.entry(prop).or_insert(0) += 1;
+        if out.failures.iter().filter(|f| f.prop == prop && f.sig == sig).count() < 3 {
+            let cfg = HistCfg { hk: 3, cap0: None, max: 0, universe: 0, events: 0, extreme: false };
+            out.failures.push(Failure { prop, sig: sig.to_string(), msg, cfg, ops: vec![log.join("; ")], at: 0, inject: None, rerun: true });
+        }
+    };
+    for _ in 0..rng.range(5, 50) {
+        let id = rng.below(universe as u64) as u32;
+        let h = heaps[rng.usize_below(heaps.len())];
+        let kind = rng.below(10);
+        let what = match kind {
+            0..=3 => {
+                TOK_HEAP.with(|c| c.set(h));
+                let size = measure(id);
+                let r = c.insert(mk_k(id), Tok::new());
+                if size > max { if r.is_ok() { bad("C02", "zst-token-model", format!("{}: insert of an entry of size {} accepted with limit {}", label, size, max), &log, out); } }
+                else {
+                    if r.is_err() { bad("C02", "zst-token-model", format!("{}: insert of an entry of size {} refused with limit {}", label, size, max), &log, out); }
+                    model.retain(|e| e.0 != id);
+                    while model.iter().map(|e| e.1 as u128).sum::<u128>() + size as u128 > max as u128 { model.remove(0); }
+                    model.push((id, size));
+                }
+                format!("insert {} heap {}", id, h)
+            }
+            4..=6 => {
+                let r = c.mutate(&mk_k(id), |_t| TOK_HEAP.with(|c| c.set(h)));
+                if let Some(pos) = model.iter().position(|e| e.0 == id) {
+                    TOK_HEAP.with(|c| c.set(h));
+                    let size = measure(id);
+                    let old = model.remove(pos);
+                    if size > max && size > old.1 { if r.is_ok() { bad("C02", "zst-token-model", format!("{}: mutate grew the entry to {} over the limit {} and returned Ok", label, size, max), &log, out); } }
+                    else {
+                        if r.is_err() { bad("C02", "zst-token-model", format!("{}: mutate to size {} refused with limit {}", label, size, max), &log, out); }
+                        while model.iter().map(|e| e.1 as u128).sum::<u128>() + size as u128 > max as u128 { model.remove(0); }
+                        model.push((id, size));
+                    }
+                } else if !matches!(r, Ok(None)) { bad("C02", "zst-token-model", format!("{}: mutate of an absent key did not return Ok(None)", label), &log, out); }
+                format!("mutate {} heap -> {}", id, h)
+            }
+            7 => { let r = c.remove(&mk_k(id)); let pos = model.iter().position(|e| e.0 == id); if r.is_some() != pos.is_some() { bad("C02", "zst-token-model", format!("{}: remove {} returned {:?}", label, id, r), &log, out); } if let Some(p) = pos { model.remove(p); } format!("remove {}", id) }
+            8 => {
+                // a Drain forgotten after a prefix of calls: C17 — the cache is empty afterwards and usable, nothing is dropped twice
+                let calls = rng.usize_below(model.len() + 2);
+                let mut it = c.drain();
+                for i in 0..calls { let _ = if i % 2 == 0 { it.next() } else { it.next_back() }; }
+                std::mem::forget(it);
+                out.stats.count("c17_forgot_drain_zst_tokens");
+                let listed = c.iter().count();
+                if c.len() != 0 || !c.is_empty() || listed != 0 || c.current_size() != 0 || model.iter().any(|e| c.contains(&mk_k(e.0))) {
+                    bad("C17", "zst-token-forgotten-drain", format!("{}: after a forgotten Drain ({} calls): len() = {}, traversal lists {}, current_size() = {}, contains(old key) = {}", label, calls, c.len(), listed, c.current_size(), model.iter().any(|e| c.contains(&mk_k(e.0)))), &log, out);
+                }
+                // what the forgotten iterator still held is leaked (allowed); re-base the count of live tokens
+                let leaked = model.len().saturating_sub(calls);
+                model.clear();
+                log.push(format!("drain, {} calls, forget ({} leaked)", calls, leaked));
+                if tok_live() - base != leaked as i64 { bad("C17", "zst-token-forgotten-drain", format!("{}: {} tokens alive after a forgotten Drain that still held {}", label, tok_live() - base, leaked), &log, out); }
+                // the leaked ones are written off by ending this history here
+                for e in 0..3u32 { let _ = c.insert(mk_k(e), Tok::new()); let _ = c.remove(&mk_k(e)); }
+                if c.len() != 0 || tok_live() - base != leaked as i64 { bad("C17", "zst-token-forgotten-drain", format!("{}: further use after a forgotten Drain: len() = {}, {} tokens alive, {} were leaked", label, c.len(), tok_live() - base, leaked), &log, out); }
+                drop(c);
+                if tok_live() - base != leaked as i64 { bad("C17", "zst-token-forgotten-drain", format!("{}: dropping the cache after a forgotten Drain changed the number of live tokens to {} ({} were leaked)", label, tok_live() - base, leaked), &log, out); }
+                out.stats.eval("C17", mix(&[7400, calls.min(9) as u64, leaked.min(9) as u64, label.len() as u64]));
+                out.stats.events += 1; out.stats.histories += 1;
+                return;
+            }
+            _ => { if rng.chance(1, 2) { c.clear(); model.clear(); "clear".to_string() } else { let m = rng.next(); c.retain(|k, _| (m >> (kid(k) % 64)) & 1 == 1); model.retain(|e| (m >> (e.0 % 64)) & 1 == 1); "retain".to_string() } }
+        };
+        log.push(what);
+        out.stats.events += 1;
+        out.stats.count("zst_token_events");
+        out.stats.eval("C02", mix(&[7300, kind, model.len().min(8) as u64, label.len() as u64]));
+        out.stats.eval("C06", mix(&[7301, kind, model.len().min(8) as u64, label.len() as u64]));
+        let got: Vec<u32> = c.iter().map(|(k, _)| kid(k)).collect();   // LRU -> MRU
+        let want: Vec<u32> = model.iter().map(|e| e.0).collect();
+        let sum: u128 = model.iter().map(|e| e.1 as u128).sum();
+        if got != want || c.len() != model.len() || c.current_size() as u128 != sum || c.current_size() > c.max_size() {
+            bad("C02", "zst-token-model", format!("{}: keys LRU->MRU {:?}, len() = {}, current_size() = {}; the model holds {:?} with sizes summing to {} (limit {})", label, got, c.len(), c.current_size(), want, sum, max), &log, out);
+            std::mem::forget(c); TOK_DROPPED.with(|d| d.set(d.get() + (tok_live() - base).max(0) as u64));
+            return;
+        }
+        if tok_live() - base != model.len() as i64 { bad("C06", "zst-token-count", format!("{}: {} zero-sized tokens are alive, the cache holds {} and nothing else holds any", label, tok_live() - base, model.len()), &log, out); }
+    }
+    let how = rng.below(3);
+    match how { 0 => drop(c), 1 => { c.clear(); if tok_live() != base { bad("C06", "zst-token-count", format!("{}: {} zero-sized tokens alive after clear()", label, tok_live() - base), &log, out); } drop(c); } _ => { let n = c.drain().count(); if n != model.len() { bad("C06", "zst-token-count", format!("{}: drain yielded {} of {}", label, n, model.len()), &log, out); } drop(c); } }
+    out.stats.countf(format_args!("c06_typevar_{}_{}", label, ["drop", "clear", "drain"][how as usize]));
+    if tok_live() != base { bad("C06", "zst-token-count", format!("{}: after the cache is gone ({}) {} zero-sized tokens remain alive (negative: dropped more often than made)", label, ["drop", "clear+drop", "drain+drop"][how as usize], tok_live() - base), &log, out); TOK_DROPPED.with(|d| d.set(TOK_MADE.with(|m| m.get()))); }
+    out.stats.histories += 1;
+}
+
+pub fn run_zst_tokens_all(rng: &mut Rng, out: &mut RunOut) {
+    run_zst_tokens::<u32>("K=u32,V=zst-token", |i| i, |k| *k, 6, rng, out);
+    run_zst_tokens::<()>("K=(),V=zst-token", |_| (), |_| 0, 1, rng, out);
+    run_zst_tokens::<String>("K=String,V=zst-token", |i| format!("k{}", i), |k| k[1..].parse().unwrap(), 5, rng, out);
+}
+
 pub fn run_layouts(seed: u64, rounds: u64, out: &mut RunOut) {
     let mut rng = Rng::new(seed ^ 0x1a10);
     for _ in 0..rounds {
         lay_u8_u8(&mut rng, out); lay_u16_u16(&mut rng, out); lay_bool_u8(&mut rng, out); lay_u32_unit(&mut rng, out); lay_u128_u64(&mut rng, out);
-        lay_u128_u128(&mut rng, out); lay_pair_u8(&mut rng, out); lay_u64_arr3(&mut rng, out); lay_u128_vecstring(&mut rng, out);
+        run_zst_tokens_all(&mut rng, out); lay_u128_u128(&mut rng, out); lay_pair_u8(&mut rng, out); lay_u64_arr3(&mut rng, out); lay_u128_vecstring(&mut rng, out);
     }
 }
 
 pub fn run_typevar(seed: u64, budget_events: u64, out: &mut RunOut) {
     let mut rng = Rng::new(seed);
     while out.stats.events < budget_events {
-        match rng.below(4) { 0 => run_key_tracked_u64(&mut rng, out), 1 => run_val_tracked_u32(&mut rng, out), 2 => run_key_tracked_str(&mut rng, out), _ => run_both_tracked(&mut rng, out) }
+        match rng.below(5) { 0 => run_key_tracked_u64(&mut rng, out), 1 => run_val_tracked_u32(&mut rng, out), 2 => run_key_tracked_str(&mut rng, out), 3 => { run_zst_tokens::<u32>("K=u32,V=zst-token", |i| i, |k| *k, 6, &mut rng, out); run_zst_tokens::<()>("K=(),V=zst-token", |_| (), |_| 0, 1, &mut rng, out); } _ => run_both_tracked(&mut rng, out) }
     }
 }
